@@ -271,7 +271,13 @@ def enum(ctx):
         return
     ty = strip(ed['type_'])
     # D3 (C02): size and alignment of the base type
-    oksz = any(is_call(x, 'Type::size') and strip(x[2][0]) == ty for x in walk(isr['size'])) and any(is_call(x, 'Type::alignment') and strip(x[2][0]) == ty for x in walk(isr['alignment']))
+    def pure_call(e, name):
+        # the value is the call itself (possibly unwrapped / given an error context), nothing computed on top of it
+        e = unwrap_all(e)
+        while is_call(e, 'Context::with_context') or is_call(e, 'Context::context') or is_call(e, 'ok_or'):
+            e = unwrap_all(e[2][0])
+        return is_call(e, name) and strip(e[2][0]) == ty
+    oksz = pure_call(isr['size'], 'Type::size') and pure_call(isr['alignment'], 'Type::alignment')
     okty = any(is_call(x, 'resolve_grammar_type') for x in walk(ty))
     ctx.ob(['C08', 'C02'], 'R-SLP', 'EB|size-align-of-base', oksz and okty, 'an enum\'s size and alignment are Type::size/alignment of the very type stored as its representation: %s' % show(ty)[:120], where)
     # E4 counter
